@@ -167,7 +167,7 @@ Proof.
     + match goal with |- context [if ?c then _ else _] => destruct c end;
         intros H; inversion H; subst; cbn [r_sched length]; lia.
   - destruct f.
-    + intros H; inversion H; subst. rewrite Hs. lia.
+    + destruct (r_fail_mode r); intros H; inversion H; subst; rewrite ?Hs; cbn [r_sched length]; lia.
     + destruct (r_rest r) as [|x rest].
       * intros H; inversion H; subst; cbn [r_sched length]; lia.
       * match goal with |- context [if ?c then _ else _] => destruct c end;
@@ -191,15 +191,24 @@ Proof.
     destruct (Nat.le_gt_cases cap (length (x :: rest))) as [Hle|Hgt]; cbn [length] in *.
     + right. rewrite Nat.min_l by lia. rewrite firstn_length. cbn [length]. lia.
     + left. rewrite Nat.min_r by lia. apply (skipn_all (x :: rest)).
-  - destruct f; [intros H; inversion H|].
+  - destruct f; [destruct (r_fail_mode r); intros H; inversion H|].
     destruct (r_rest r) as [|x rest] eqn:Hr; [intros H; inversion H|].
     match goal with |- context [if ?c then _ else _] => destruct c end; intros H; inversion H; subst.
     split; [discriminate|]. left. cbn [r_sched length]. lia.
 Qed.
 
+(* a failing step reports the failure, whatever the failure mode (it may deliver data with it: FOnceData) *)
 Lemma read_fail : forall r cap n sch,
-    r_sched r = (n, true) :: sch -> read r cap = ([], Some RFail, r).
-Proof. intros r cap n sch H. unfold read. rewrite H. reflexivity. Qed.
+    r_sched r = (n, true) :: sch -> exists data r', read r cap = (data, Some RFail, r').
+Proof.
+  intros r cap n sch H. unfold read. rewrite H.
+  destruct (r_fail_mode r); do 2 eexists; reflexivity.
+Qed.
+
+(* the sticky mode: no data, the reader is unchanged *)
+Lemma read_fail_sticky : forall r cap n sch,
+    r_sched r = (n, true) :: sch -> r_fail_mode r = FSticky -> read r cap = ([], Some RFail, r).
+Proof. intros r cap n sch H Hm. unfold read. rewrite H, Hm. reflexivity. Qed.
 
 (* reads of a reader that never fails *)
 Lemma read_no_fail : forall r cap data err r',
@@ -209,9 +218,9 @@ Lemma read_no_fail : forall r cap data err r',
 Proof.
   intros r cap data err r' Hnf. unfold read.
   assert (Hnf' : forall n f sch rest, r_sched r = (n, f) :: sch ->
-                 no_fail {| r_rest := rest; r_sched := sch; r_eof_with_data := r_eof_with_data r |}).
+                 no_fail {| r_rest := rest; r_sched := sch; r_eof_with_data := r_eof_with_data r; r_fail_mode := r_fail_mode r |}).
   { intros n f sch rest Hs n0 f0 Hin. cbn [r_sched] in Hin. apply (Hnf n0). rewrite Hs. right. exact Hin. }
-  assert (Hnf0 : forall rest, no_fail {| r_rest := rest; r_sched := []; r_eof_with_data := r_eof_with_data r |}).
+  assert (Hnf0 : forall rest, no_fail {| r_rest := rest; r_sched := []; r_eof_with_data := r_eof_with_data r; r_fail_mode := r_fail_mode r |}).
   { intros rest n0 f0 Hin. cbn [r_sched] in Hin. contradiction. }
   destruct (r_sched r) as [|[n f] sch] eqn:Hs.
   - destruct (r_rest r) as [|x rest].
@@ -405,8 +414,9 @@ Proof.
   rewrite next_unfold, (need_refill_not_ascii _ Hneed) in Hn.
   assert (Hrf : forall s1 eof, refill fuel b s = Some (s1, eof) -> s_err s1 = true).
   { intros s1 eof. destruct fuel as [|f]; cbn [refill]; [discriminate|]. rewrite Hneed.
-    rewrite (refill_step_unfold _ _ _ _ _ (read_fail _ _ _ _ Hs)). cbn zeta.
-    destruct (window s ++ []); intros H; inversion H; subst; reflexivity. }
+    destruct (read_fail (s_rd s) (b - length (window s)) _ _ Hs) as [data [rd' Hrd]].
+    rewrite (refill_step_unfold _ _ _ _ _ Hrd). cbn zeta.
+    destruct (window s ++ data); intros H; inversion H; subst; reflexivity. }
   destruct (refill fuel b s) as [[s1 [|]]|] eqn:Hr; [| |discriminate].
   - inversion Hn; subst. eapply Hrf; reflexivity.
   - pose proof (finish_err s1) as Hfe. destruct (finish s1) as [sf chf].
@@ -827,7 +837,7 @@ Qed.
 Definition cex_scanner : scanner :=
   {| s_buf := [195; 169]%Z; s_pos := 0; s_off := 0%Z; s_line := 1%Z; s_col := 0%Z; s_lastLineLen := 0%Z; s_lastCharLen := 0;
      s_tokBuf := []; s_tokPos := None; s_tokEnd := 0; s_err := false;
-     s_rd := {| r_rest := []; r_sched := [(1, true)]; r_eof_with_data := false |} |}.
+     s_rd := {| r_rest := []; r_sched := [(1, true)]; r_eof_with_data := false; r_fail_mode := FSticky |} |}.
 
 Lemma next_fail_sets_err_original_false :
   exists fuel b s s' ch,
